@@ -4,6 +4,7 @@ import (
 	"fmt"
 	"go/token"
 	"go/types"
+	"strings"
 
 	"golang.org/x/tools/go/ssa"
 
@@ -383,7 +384,99 @@ func isClockCall(cl *core.Call) bool {
 		return false
 	}
 	g, ok := ld.X.(*ssa.Global)
-	return ok && g.Name() == "clock"
+	return ok && theClock != nil && g == theClock
+}
+
+// theClock is the package-level clock of wasp/distributed: the variable of type func() int64 whose initial value reads
+// time.Now (found by shape, not by name). Set per loaded program by the registry.
+var theClock *ssa.Global
+var clockCache = map[*core.Prog]*ssa.Global{}
+
+func findClock(p *core.Prog) *ssa.Global {
+	if g, ok := clockCache[p]; ok {
+		return g
+	}
+	var found *ssa.Global
+	if pk := p.SSAPkg("wasp/distributed"); pk != nil {
+		for _, m := range pk.Members {
+			g, ok := m.(*ssa.Global)
+			if !ok {
+				continue
+			}
+			sig, ok := derefT(g.Type()).Underlying().(*types.Signature)
+			if !ok || sig.Params().Len() != 0 || sig.Results().Len() != 1 {
+				continue
+			}
+			if b, ok := sig.Results().At(0).Type().Underlying().(*types.Basic); !ok || b.Kind() != types.Int64 {
+				continue
+			}
+			if f := clockImpl(pk, g); f != nil && readsWallClock(f, 2) {
+				found = g
+			}
+		}
+	}
+	clockCache[p] = found
+	return found
+}
+
+// clockImpl: the function stored into the clock variable by the package initialiser.
+func clockImpl(pk *ssa.Package, g *ssa.Global) *ssa.Function {
+	var out *ssa.Function
+	for _, m := range pk.Members {
+		f, ok := m.(*ssa.Function)
+		if !ok || !strings.HasPrefix(f.Name(), "init") {
+			continue
+		}
+		for _, b := range f.Blocks {
+			for _, in := range b.Instrs {
+				if st, ok := in.(*ssa.Store); ok && st.Addr == ssa.Value(g) {
+					if fn := closureArg(st.Val); fn != nil {
+						out = fn
+					}
+				}
+			}
+		}
+	}
+	return out
+}
+
+func readsWallClock(f *ssa.Function, depth int) bool {
+	for _, cl := range core.CallsIn(f) {
+		if cl.Static != nil && cl.Static.Pkg != nil && cl.Static.Pkg.Pkg.Path() == "time" && cl.Static.Name() == "Now" {
+			return true
+		}
+		if depth > 0 && cl.Static != nil && len(cl.Static.Blocks) > 0 && cl.Static.Pkg == f.Pkg && readsWallClock(cl.Static, depth-1) {
+			return true
+		}
+	}
+	return false
+}
+
+// ruleClockResolution: the clock that stamps replicated entries keeps the full resolution of the wall clock.
+func (c *Ctx) ruleClockResolution(id string) {
+	ru := c.R.Rule(id, "the clock that stamps replicated entries returns time.Now().UnixNano() unscaled: a later local update of the same key must get a strictly larger stamp, because an entry only replaces one that is strictly older (a coarser clock makes an unsubscribe, a clear or a re-creation that follows within one tick tie with what it supersedes — and be dropped)", "E11 shape of the clock function: UnixNano with conversions only", 1)
+	if !ru.Anchor(theClock != nil, "the package-level clock (func() int64 reading time.Now) of wasp/distributed") {
+		return
+	}
+	f := clockImpl(theClock.Pkg, theClock)
+	if !ru.Anchor(f != nil, "the function the clock variable is initialised with") {
+		return
+	}
+	c.R.Fn(c.fname(f))
+	bad := ""
+	for _, rv := range returnValues(f) {
+		v := conversionsOnly(rv)
+		cv, ok := v.(*ssa.Call)
+		if !ok {
+			bad = "the clock's value is computed (" + short(core.Term(rv), 80) + "), not the wall clock's nanosecond reading taken as is: stamps of successive local updates can tie"
+			continue
+		}
+		cl := core.CallOf(cv)
+		if cl.Obj == nil || cl.Obj.Pkg() == nil || cl.Obj.Pkg().Path() != "time" || cl.Obj.Name() != "UnixNano" {
+			bad = "the clock returns " + short(core.Term(rv), 80) + ", not time.Now().UnixNano(): stamps of successive local updates can tie"
+		}
+	}
+	ru.Check(bad == "", "resolution of "+c.fname(f), c.whereF(f), "time.Now().UnixNano(), conversions only", bad)
 }
 
 var _ = report.Discharged
